@@ -6,7 +6,7 @@ From Verif Require Import Jit.JitFill.
 Extraction Blacklist List String Int.
 Extraction "jitmodel.ml" JitModel.init_state JitModel.alloc JitModel.release JitModel.shrink JitModel.query JitModel.reset
   JitModel.statistics JitModel.is_initialized JitModel.state_wsound JitModel.block_wsound JitModel.find_block JitModel.pool_gran
-  JitModel.fixed JitModel.pinned
+  JitModel.fixed JitModel.pinned JitModel.norm_gran JitModel.norm_bsize JitModel.norm_pools JitModel.size_to_pool JitModel.ideal_block_size JitModel.max_block_size
   JitCursorModel.init_cstate JitCursorModel.alloc_c JitCursorModel.release_c JitCursorModel.shrink_c JitCursorModel.reset_c
   JitCursorModel.get_cur JitSpec.spec_run JitVmModel.alloc_vm
   RangeIterModel.ranges BitVecModel.bv_fill BitVecModel.bv_clear BitVecModel.bv_index_of
